@@ -2022,7 +2022,11 @@ package xpath
 //@   loop * decreases pmeas(p.r)
 //@ func (*parser).parseFilterExpr
 //@   mode int
-//@   props C06 C10 C17
+//@   props C06 C10 C17 C02
+//@   ensures[all-predicates@C02] p.r.typ != itemLBracket     // every predicate that follows the primary expression is parsed (repaired defect: only the first one was)
+//@   loop 0 invariant[depth@C06] p.d == old(p.d)
+//@   loop 0 invariant[tier@C10] tPath(opnd)
+//@   loop 0 invariant[swf@C17] swf(p.r)
 //@   requires[depth@C06] p != nil && 0 <= p.d && p.d <= 200
 //@   maypanic
 //@   modifies heap(F:scanner.*), p.d
